@@ -227,6 +227,44 @@ theorem recorded_gc_order_safe :
     checkProgram Gen.GC.gcNewPack Gen.GC.gcProtected false false (Gen.GC.gcProgram.map Act.ofCode) = true := by
   decide
 
+/-- `repack()` and `garbage_collect()` as recorded from the source (pack-directory listings included): after the new pack is
+installed the pack directory is not listed again before pack files are removed — the removal loop works off the snapshot
+taken before copying.  A removal loop that re-lists the directory is rejected; and the translator finds the loop iterating
+the pre-copy variable in the source. -/
+theorem recorded_repack_removes_snapshot_only :
+    Gen.GC.repackRemovesSnapshotOnly = true ∧
+    removesSnapshotOnly Gen.GC.repackNewPack false false (Gen.GC.repackProgramL.map Act.ofCode) = true ∧
+    removesSnapshotOnly Gen.GC.gcNewPack false false (Gen.GC.gcProgramL.map Act.ofCode) = true ∧
+    -- the recorded programs with the listings dropped are the ones used above
+    (Gen.GC.repackProgramL.filter (fun a => a.1 != 6)) = Gen.GC.repackProgram ∧
+    (Gen.GC.gcProgramL.filter (fun a => a.1 != 6)) = Gen.GC.gcProgram ∧
+    -- what the check rejects: listing the directory between the installation and the removals
+    removesSnapshotOnly 1 false false [.listPacks, .installData 1, .installIdx 1, .delLoose 7, .listPacks, .removeData 2,
+      .removeIdx 2] = false := by
+  decide
+
+/-- A pack that another writer lands while `repack()` runs survives: the procedure (`mstep`, removal targets = the packs of
+the snapshot taken before copying, minus the consolidated pack) interleaved by ANY schedule with ANY adding actions of the
+environment never makes incomplete a pack that is complete and not among the packs it may still remove — in particular
+any pack that was not in the directory when the snapshot was taken. -/
+theorem pack_landed_during_repack_survives (newp : Name) (sched : List (Option Act)) (f : FS) (m : MPhase) (q : Name)
+    (henv : ∀ a, some a ∈ sched → a.adds = true) (hm : m ≠ MPhase.start) (hq : q ∉ mayRemove m)
+    (hc : f.complete q = true) : (mexec false newp f m sched).1.complete q = true :=
+  late_pack_survives newp sched f m q henv hm hq hc
+
+/-- Negation witness for the variant whose removal loop lists the directory again (NOT the code): old pack 1, the
+repacker snapshots [1] and installs pack 9, another writer lands pack 5, the removal loop re-lists, sees [1, 9, 5] and
+removes 1 and 5 — pack 5's objects were never copied.  The real procedure leaves pack 5 alone (and this run is an
+instance of the theorem's hypotheses: non-vacuity). -/
+theorem relisting_removal_loop_deletes_late_pack :
+    let f0 : FS := { idx := [1], data := [1], loose := [] }
+    let sched : List (Option Act) := [none, none, some (.installData 5), some (.installIdx 5), none, none, none, none]
+    (mexec true 9 f0 .start sched).1.complete 5 = false ∧ (mexec true 9 f0 .start sched).2 = MPhase.done ∧
+    (mexec false 9 f0 .start sched).1.complete 5 = true ∧ (mexec false 9 f0 .start sched).1.complete 1 = false ∧
+    (mexec false 9 f0 .start sched).1.complete 9 = true ∧
+    (mexec false 9 f0 .start (sched.take 2)).2 = MPhase.installed [1] ∧ 5 ∉ mayRemove (MPhase.installed [1]) := by
+  decide
+
 /-- `repack_order_safe`: readers of any object that the real `repack()` keeps — packed before, or loose and moved into
 the new pack — survive it, whatever the schedule; the program is the one recorded from the source on this run. -/
 theorem repack_order_safe (f0 : FS) (readers : List (Cfg × RState))
